@@ -453,6 +453,60 @@ def sensitive_container_stream(ctx, res):
             res.violate("C10:nomask-altered", "without a mask a sensitive container is not rendered in full", {"stream": "sensitive-containers", "config_type": typed})
 
 
+def untyped_shapes_stream(ctx, res):
+    """values no typed field converts — an AnyField, untyped lists and dicts, dynamic keys — holding tuples, nested tuples and plain
+    containers next to sensitive fields: under every mask they are rendered exactly as without a mask, type for type"""
+    import cincoconfig as cc
+
+    def typed_repr(v):
+        if isinstance(v, dict):
+            return ("dict", [(k, typed_repr(x)) for k, x in v.items()])
+        if isinstance(v, (list, tuple)):
+            return (type(v).__name__, [typed_repr(x) for x in v])
+        return (type(v).__name__, v)
+    item = cc.Schema()
+    item.name = cc.StringField(default="n")
+    item.secret = cc.StringField(sensitive=True, default="ITEM-SECRET")
+    item.span = cc.Field(default=(1, 2))
+    for dynamic in (False, True):
+        s = cc.Schema(dynamic=dynamic)
+        s.window = cc.Field(default=(9, 17))
+        s.limits = cc.DictField(default=lambda: {"cpu": (1, 4), "mem": (2, (3, [4, (5,)]))})
+        s.raw = cc.ListField(default=lambda: [(1, 2), [3, (4,)], {"k": (6,)}])
+        s.password = cc.StringField(sensitive=True, default="ROOT-SECRET")
+        s.sub.origin = cc.Field(default=((0, 0), "x"))
+        s.sub.token = cc.StringField(sensitive=True, default="SUB-SECRET")
+        s.items = cc.ListField(item, default=lambda: [])
+        cfg = s()
+        cfg.items = [{}, {"span": ((7,), 8)}]
+        if dynamic:
+            cfg.origin = (0, (1, 2))
+        plain = cfg.to_tree()
+        for mask in ("", "*", "<hidden>"):
+            case = {"stream": "untyped-shapes", "dynamic": dynamic, "mask": mask}
+            res.case(stable(case), kind="untyped-shapes")
+            try:
+                masked = cfg.to_tree(sensitive_mask=mask)
+            except Exception as e:  # noqa
+                res.violate("C10:nonsensitive-changed", "rendering with a mask raised %s" % type(e).__name__, dict(case, error=str(e)[:100]))
+                continue
+            bad = []
+            for path in (("window",), ("limits",), ("raw",), ("sub", "origin"), ("origin",) if dynamic else ("window",)):
+                a, b = plain, masked
+                for q in path:
+                    a, b = a[q], b[q]
+                if typed_repr(a) != typed_repr(b):
+                    bad.append([".".join(path), repr(a)[:60], repr(b)[:60]])
+            for i in range(2):
+                if typed_repr(plain["items"][i]["span"]) != typed_repr(masked["items"][i]["span"]):
+                    bad.append(["items[%d].span" % i, repr(plain["items"][i]["span"]), repr(masked["items"][i]["span"])])
+            if bad:
+                res.violate("C10:nonsensitive-changed", "under a mask a value that is not sensitive is not rendered exactly as without a mask (a tuple became a list, or the like)",
+                            dict(case, differs=bad[:4]))
+            if any(x in repr(masked) for x in ("ROOT-SECRET", "SUB-SECRET", "ITEM-SECRET")):
+                res.violate("C10:leak-in-tree", "a sensitive value appears in the masked tree", case)
+
+
 def nested_stream(ctx, res, n):
     """the walk that renders configurations held below nested containers (Config._render_nested) against the model's renderNested
     (Cinco/Config/Nested.lean, theorems in Props/C10b.lean): random nestings of lists, tuples and dicts holding real configurations
@@ -531,6 +585,7 @@ def run(ctx, n_quick=150, n_thorough=5000):
     guard(res, "C10", late_field_stream, ctx, res)
     guard(res, "C10", shapes_stream, ctx, res)
     guard(res, "C10", sensitive_container_stream, ctx, res)
+    guard(res, "C10", untyped_shapes_stream, ctx, res)
     return res
 
 
